@@ -44,7 +44,7 @@ CHECKS = {
         category="fault_enumeration",
         technique="exhaustive crash-point enumeration (every syscall boundary and every byte offset of every record write) of the real journal code over a simulated file system, survivor interleavings by state-cached stateless search",
         text="A victim JournalStorage(JournalFileBackend) runs each call of a 7-call menu (and short multi-call histories) over SimFS and is killed at every syscall boundary and at every byte offset inside every record write; then every survivor continuation (1 survivor sequential, 2 survivors all interleavings up to the preemption bound with state caching) runs, and a fresh opener replays the file. Observed states must equal the reference after acked or acked+interrupted, no survivor call may raise, survivors must terminate. Both lock classes.",
-        note="Crash = process death (page cache survives); one crash per run; RDB/SQLite crash points are not yet covered by this check (journal only); SimFS is validated against tmpfs in C07.",
+        note="Crash = process death (page cache survives); one crash per run; SQLite part: every storage call of a 10-call menu with death before every SQL statement and commit (crashes inside SQLite's own commit are trusted); SimFS is validated against tmpfs in C07.",
         design="3/C05",
     ),
     "C07": dict(
@@ -78,6 +78,14 @@ CHECKS = {
         text="For every compatible combination of 8 samplers (GP in thorough), 6 pruners, 10 deterministic define-by-run programs (conditional spaces, reports with pruning, a failing trial, dynamic ranges, 2 objectives, finite spaces), 2 seeds: the 10-trial sequence of (params, intermediate values, state, values) must be identical when repeated, when split into 4+6, 1+9 or 3+3+4 optimize calls, and on every storage (journal file, gRPC proxy over in-memory and cached RDB, cached RDB, each also pre-loaded with another study so that trial ids are offset); copy_study over all ordered pairs of 5 backends must reproduce every trial field and study attribute.",
         note="Sequential optimize, deterministic objectives; SQLite stands for RDB; in-process gRPC stub; CMA-ES not installed.",
         design="3/C09",
+    ),
+    "C10": dict(
+        engine="seqx-lattice",
+        category="exploration",
+        technique="bounded-exhaustive enumeration of a distribution lattice x samplers (independent and relative mode) x prior histories x storages, membership/stability/stored-value oracle",
+        text="The full product of a lattice of Float/Int/Categorical distributions built from the code's branch points (tiny/huge/negative ranges, steps that do and do not divide the range, log ranges near 1, single-point domains), 10 sampler configurations (Random, TPE uni/multivariate, QMC, NSGA-II incl. variants that reach relative mode, PartialFixed, Grid/BruteForce on finite domains; GP in thorough), 5 prior histories (empty, same range, different range for the same name, enqueued in-range and out-of-range value) and 4 storages: every suggested value is inside the domain (log floats: max(4, 1+ceil|ln bound|) ulp), on the step grid, an int for ints, one of the choices for categoricals; a second suggest returns the same value; enqueued values win; the value read back from the study equals the value the objective received.",
+        note="Nothing is claimed off the lattice. ==-equal categorical choices of different types ((True, 1)) are compared with == as the statement says.",
+        design="3/C10",
     ),
     "C11": dict(
         engine="seqx-lattice",
@@ -164,7 +172,7 @@ CHECKS = {
 ENGINES = [
     dict(name="procx", path="vf/simfs.py", serves_properties=["C03", "C05", "C07", "C19"],
          kind_free_text="processes as baton-scheduled threads over a simulated file system / virtual clock; every syscall a scheduling or crash point; state caching on (file image, per-process syscall-history digests)"),
-    dict(name="seqx-lattice", path="vf/c15.py", serves_properties=["C11", "C15", "C18"],
+    dict(name="seqx-lattice", path="vf/c15.py", serves_properties=["C10", "C11", "C15", "C18"],
          kind_free_text="bounded-exhaustive enumeration of finite argument lattices with exact or reference oracles"),
     dict(name="thx", path="vf/thx.py", serves_properties=["C03", "C04"],
          kind_free_text="stateless exploration of thread interleavings of the real code under a controlled scheduler, preemption-bounded"),
